@@ -135,7 +135,13 @@ class Check(PropertyCheck):
                   "stream_disk_complete_after_each_hook; with ONE hypothesis about the whole run instead of one per hook: "
                   "stream_file_complete_at_every_hook, stream_disk_complete_at_every_hook); an explicit save is complete after close "
                   "(explicit_save_complete_after_close); CPython's BufferedWriter.write policy is transcribed and covered "
-                  "(cpython_buffered_explicit_save) and its on-disk sizes are predicted in the tie. Tied to the code by "
+                  "(cpython_buffered_explicit_save) and its on-disk sizes are predicted in the tie; the Save addon's hook handlers are "
+                  "transcribed (addonStep: start hooks record the flow as active while streaming, response/error write unless the flow has "
+                  "websocket data, the *_end/*_error/dns_* hooks write, save_flow writes iff streaming and the filter matches and discards the "
+                  "flow, done() writes the still-active matching flows): for EVERY history every flow finished while streaming and matching is "
+                  "among the written records in hook order, whether or not its start hook was seen (finished_flows_are_written), and the "
+                  "crash / completeness theorems hold for every addon history (crash_prefix_every_addon_history, "
+                  "addon_disk_complete_at_every_hook); in the tie the addon model itself decides what each hook writes. Tied to the code by "
                   "truncating real flow files of every flow type at every byte offset, by driving the real Save addon "
                   "through hook sequences and comparing the file after each hook, and by truncated real files.")
     level_note = ("trusted: Lean kernel; differential tie (all offsets of sampled files, sampled hook sequences); bytes handed "
@@ -148,9 +154,9 @@ class Check(PropertyCheck):
                   "may start afresh only after the user re-opens its path in overwrite mode; record boundaries come from an independent "
                   "reading of the framing and must agree with the writer's positions; full flow states are compared at every offset; "
                   "the model tie skips (never the oracle) three in four boundary-free windows in the thorough tier; "
-                  "which Save hook or option update writes, keeps or restarts the file is validated by "
-                  "the harness against the real addon (flowfilter decides which flows match), the Lean model only knows "
-                  "noop/save/done events on one file; from_state∘migrate_flow is a parameter of the "
+                  "which hook writes is transcribed and predicted (the filter's verdict per flow is an input: flowfilter is C39's); how "
+                  "OPTION updates (filter change, file switch / restart, refused updates with rollback) keep or restart the file is validated by "
+                  "the harness against the real addon — the Lean addon model has one stream file, start and done; from_state∘migrate_flow is a parameter of the "
                   "reader model and the equality of loaded flows with the written ones is validated by the harness.")
     technique = "Lean 4 proof (prefix decomposition + reader loop induction) + differential truncation/hook correspondence"
     rule = ("trunc: a file of 1-4 flows of random types (every serialised field randomised, or the stock test flows) written "
@@ -166,7 +172,9 @@ class Check(PropertyCheck):
     time_budget = {"quick": 22, "thorough": 420}
     fingerprints = ["mitmproxy.io.io:FlowWriter.add", "mitmproxy.io.io:FilteredFlowWriter.add", "mitmproxy.io.io:FlowReader.stream",
                     "mitmproxy.io.io:read_flows_from_paths", "mitmproxy.io.tnetstring:load", "mitmproxy.io.tnetstring:dump",
-                    "mitmproxy.addons.save:Save.save_flow", "mitmproxy.addons.save:Save.configure", "mitmproxy.addons.save:Save.done", "mitmproxy.addons.save:Save.save",
+                    "mitmproxy.addons.save:Save.save_flow", "mitmproxy.addons.save:Save.configure", "mitmproxy.addons.save:Save.request",
+                    "mitmproxy.addons.save:Save.tcp_start", "mitmproxy.addons.save:Save.udp_start", "mitmproxy.addons.save:Save.dns_request",
+                    "mitmproxy.addons.save:Save.tcp_error", "mitmproxy.addons.save:Save.udp_error", "mitmproxy.addons.save:Save.done", "mitmproxy.addons.save:Save.save",
                     "mitmproxy.addons.save:Save.maybe_rotate_to_new_file", "mitmproxy.addons.save:Save.response",
                     "mitmproxy.addons.save:Save.websocket_end", "mitmproxy.addons.save:Save.tcp_end",
                     "mitmproxy.addons.save:Save.udp_end", "mitmproxy.addons.save:Save.dns_response",
